@@ -191,7 +191,8 @@ class Representation(ObjectWithFields):
                 seg.duration = dur
                 try:
                     for kid in atom.pssh.key_ids:
-                        key_ids.add(KeyMaterial(raw=kid))
+                        # key_ids holds HexBinary objects, KeyMaterial needs the bytes
+                        key_ids.add(KeyMaterial(raw=getattr(kid, 'data', kid)))
                 except AttributeError:
                     pass
                 tfdt = atom.traf.find_child('tfdt')
